@@ -13,30 +13,34 @@ set_option linter.unnecessarySeqFocus false
 open Rules
 
 namespace Bridge
+open Robust
 
 @[simp] theorem throw_eq' {α : Type} (e : Py.Err) : (throw e : Py.M α) = Except.error e := rfl
 @[simp] theorem error_bind' {α β : Type} (e : Py.Err) (f : α → Py.M β) : (Except.error e >>= f) = Except.error e := rfl
 
+/-! Every guard is read as a boolean formula: `m = .ok () ↔ raises m = false`, and `raises` of a program built from `if`, `raise`, local
+    helper functions and early returns is computed by `simp` (`raises_ite`, `raises_bind_unit`, …), whatever the nesting; the
+    comparison with the rule is linear arithmetic (`omega`).  `↓`: a condition `decide p = true` becomes `p`, and `raises` is pushed
+    through an `if`, before anything is rewritten inside `p` (a rewrite under `decide` would leave the `Decidable` instance behind).  The shape of the guards (one `if` or two, `not (1 <= n <= 64)`, a
+    helper method) does not matter. -/
+macro "guard_iff" "[" ts:Lean.Parser.Tactic.simpLemma,* "]" : tactic =>
+  `(tactic| (rw [ok_iff_not_raises]; simp [↓decide_eq_true_eq, ↓raises_ite, $ts,*] <;> omega))
+
 /-- unsigned integers, bool-like primitives: `PrimitiveType.__init__` accepts exactly the widths 1..64 -/
 theorem primitive_check_iff (w : Nat) : Gen.PrimitiveType.check w = .ok () ↔ (1 ≤ w ∧ w ≤ 64) := by
-  simp only [Gen.PrimitiveType.check]
-  by_cases h1 : w < 1 <;> by_cases h2 : w > 64 <;> simp [h1, h2] <;> omega
+  guard_iff [Gen.PrimitiveType.check]
 
 theorem void_check_iff (w : Nat) : Gen.VoidType.check w = .ok () ↔ (1 ≤ w ∧ w ≤ 64) := by
-  simp only [Gen.VoidType.check]
-  by_cases h1 : w < 1 <;> by_cases h2 : w > 64 <;> simp [h1, h2] <;> omega
+  guard_iff [Gen.VoidType.check]
 
 theorem signed_check_iff (w : Nat) (sat : Bool) : Gen.SignedIntegerType.check w sat = .ok () ↔ (2 ≤ w ∧ sat = true) := by
-  simp only [Gen.SignedIntegerType.check]
-  by_cases h1 : w < 2 <;> cases sat <;> simp [h1] <;> omega
+  cases sat <;> guard_iff [Gen.SignedIntegerType.check]
 
 theorem array_check_iff (cap : Nat) : Gen.ArrayType.check cap = .ok () ↔ 1 ≤ cap := by
-  simp only [Gen.ArrayType.check]
-  by_cases h1 : cap < 1 <;> simp [h1] <;> omega
+  guard_iff [Gen.ArrayType.check]
 
 theorem union_check_iff (n : Nat) : Gen.UnionType.check n = .ok () ↔ 2 ≤ n := by
-  simp only [Gen.UnionType.check]
-  by_cases h1 : n < 2 <;> simp [h1] <;> omega
+  guard_iff [Gen.UnionType.check]
 
 /-- The constructor guards accept a scalar exactly when the model's `Scalar.ctorOk` does (floats: the width table is a
     dictionary lookup in the source and stays hand-modelled). -/
@@ -55,8 +59,21 @@ theorem int_ctor (w : Nat) (c : Cast) :
 theorem version_port_iff (major minor : Nat) (srv : Bool) (pid : Option Nat) :
     Gen.CompositeType.check_version_and_port major minor srv pid = .ok () ↔
       (versionOk major minor = true ∧ ∀ p, pid = some p → (if srv then p ≤ 511 else p ≤ 8191)) := by
-  simp only [Gen.CompositeType.check_version_and_port, versionOk]
-  by_cases h1 : major ≤ 255 <;> by_cases h2 : minor ≤ 255 <;> by_cases h3 : major + minor > 0 <;>
-    cases pid <;> cases srv <;> simp [h1, h2, h3] <;> (try omega) <;> (try exact decide_eq_true_iff)
+  cases pid <;> cases srv <;> guard_iff [Gen.CompositeType.check_version_and_port, versionOk]
+
+/-- ... with the exception classes: the version rule first (`InvalidVersionError`), then the port-ID range (`InvalidFixedPortIDError`).
+    Every atom of the rule is a case, `simp` evaluates the generated guards in each: no dependence on their shape. -/
+theorem version_port_classes (major minor : Nat) (srv : Bool) (pid : Option Nat) :
+    Gen.CompositeType.check_version_and_port major minor srv pid =
+      if versionOk major minor = true then
+        (if ∀ p, pid = some p → (if srv then p ≤ 511 else p ≤ 8191) then .ok () else .error (.other "InvalidFixedPortIDError"))
+      else .error (.other "InvalidVersionError") := by
+  unfold Gen.CompositeType.check_version_and_port
+  rcases pid with _ | p
+  · cases srv <;> by_cases h1 : major ≤ 255 <;> by_cases h2 : minor ≤ 255 <;> by_cases h3 : 0 < major + minor <;>
+      simp (disch := omega) [versionOk, h1, h2, h3, ↓decide_eq_true_eq, throw_err, err_bind, if_pos, if_neg] <;> omega
+  · cases srv <;> by_cases h1 : major ≤ 255 <;> by_cases h2 : minor ≤ 255 <;> by_cases h3 : 0 < major + minor <;>
+      by_cases hp1 : p ≤ 511 <;> by_cases hp2 : p ≤ 8191 <;>
+      simp (disch := omega) [versionOk, h1, h2, h3, hp1, hp2, ↓decide_eq_true_eq, throw_err, err_bind, if_pos, if_neg] <;> omega
 
 end Bridge
